@@ -338,7 +338,7 @@ S!(c14_step_stats_same_fee, 2, {
     d[3] = (FEE_A >> 8) as u8; // first packet: link B, FEE A
     scan_step_d(d, 74, 80, 1, true, false, false, true, true, false)
 });
-//@ harness: c14_step_stats_filter props=C14 also=C03 tier=thorough class=functional covers=1 mem=28 timeout=2400 est=400 args=-Z,restrict-vtable
+//@ harness: c14_step_stats_filter props=C14 also=C03 tier=quick class=functional covers=1 mem=14 timeout=1500 est=100 args=-Z,restrict-vtable
 //@ bounds: mid-stream call with a link filter, payloads skipped, first packet skipped by the filter: RDHSeen counts both visited packets, RDHFiltered the delivered one, both links and FEE ids observed
 S!(c14_step_stats_filter, 2, scan_step(74, 80, 1, true, false, false, true, true, false));
 //@ harness: c14_step_stats_mid props=C14 also=C03 tier=quick class=functional covers=1 mem=20 timeout=1800 est=300 args=-Z,restrict-vtable
